@@ -65,7 +65,7 @@ Section Gen.
   (** one field: ident (named), path, flags, mark used *)
   Definition field_ir_of (params : list tparam_ir) (f : field) : result field_ir :=
     let* p := resolve_field_type_path r s (f_ty f) params (f_type_name f) in
-    Ok (mk_fi p (is_compact p) (is_boxed f)).
+    Ok (mk_fi p (is_compact p) (is_boxed_gen f)).
 
   (** [create_composite_ir_kind]; threads the unused set *)
   Definition create_composite_ir_kind (fs : list field) (params unused : list tparam_ir)
